@@ -26,7 +26,8 @@ arguments select the container ("region") is a parameter `Backend.regionOf` of t
 the execution counter's ticks, and ghost events (which branch a cached wrapper took; for every completed creation
 the section, scope, context and pre-state it ran in) that the specification monitor in `Spec.lean` reads.
 
-State of /repo followed: after ec9a6d2 (`write_inline_def` passes `buffered` on) and b9a6f20 (`BeakerCacheImpl.set`).
+State of /repo followed: after ec9a6d2 (`write_inline_def` passes `buffered` on), b9a6f20 (`BeakerCacheImpl.set`) and
+248d875 (`visitBlockTag` writes what a block's callable returns, so a buffered block shows its content where it stands).
 
 Domain: strings for context values, def arguments, keys and values; `cache_timeout` a decimal literal;
 templates render without raising.
